@@ -270,7 +270,7 @@ func (e *Enc) frameObligations(name string, con *Contract, env *Env, entry *Stat
 			}
 			e.oblige("frame", name0+"/frame.global."+name, eq(fin, ini), pos)
 		case strings.HasPrefix(k, "G|"):
-			if _, ok := allowedRef[k]; ok {
+			if _, ok := allowedRef[k]; ok || strings.HasPrefix(k, "G|loc_") {
 				continue
 			}
 			e.oblige("frame", name+"/frame.ghost."+strings.TrimPrefix(k, "G|"), eq(fin, ini), pos)
